@@ -11,6 +11,7 @@ import CffVerif.Sched.ReportInv
 import CffVerif.Sched.Progress
 import CffVerif.Sched.Measure
 import CffVerif.Sched.RetInv
+import CffVerif.Sched.Own
 import CffVerif.Text.BuildTag
 import CffVerif.Text.Alias
 import CffVerif.Text.Stack
@@ -462,6 +463,41 @@ example :
        .loopDispatch 0, .workerDecide 0, .workerPost 0, .loopResult, .loopClose, .callerRetFin] = some s
       ∧ s.caller.ret = some [.fail 7, .invalid] := by
   decide
+
+end Sched
+
+namespace Sched
+
+/-! ### C12 — ownership discipline (partial: the Go memory model is trusted) -/
+
+/-- **C12 loop-owned state.** Enqueue, Wait, every worker step and cancellation leave the loop's
+    state — every job's `remaining/consumers/done/err/invalid`, the ready list, the counters and
+    `s.err` — untouched: only the loop goroutine writes it. -/
+theorem C12_loop_state_owner (c : Cfg) (hw : c.wiring = Wiring.std) (s s' : State) (a : Act)
+    (ha : a.isLoop = false) (hs : step c s a = some s') : s'.loop = s.loop :=
+  step_nonloop_frame hw ha hs
+
+/-- **C12 hand-off.** The loop touches a worker only through the `readyc` hand-off to an idle worker. -/
+theorem C12_loop_touches_workers_only_by_handoff (c : Cfg) (hw : c.wiring = Wiring.std) (s s' : State) (a : Act)
+    (ha : a.isLoop = true) (hs : step c s a = some s') :
+    s'.ws = s.ws ∨ ∃ w j, a = .loopDispatch w ∧ s.ws[w]? = some .idle ∧ s'.ws = s.ws.set w (.holding j) :=
+  step_loop_ws hw ha hs
+
+/-- **C12 `invalid`.** The one loop-owned field a worker reads, `invalid` of the job it received, is
+    never written after that job was handed over: in every log every `wroteInvalid k` precedes
+    `dispatched k`.  (The hand-off itself is a channel send/receive: happens-before by the Go
+    memory model, which is trusted, not formalised.) -/
+theorem C12_invalid_written_before_handoff (c : Cfg) (hw : c.wiring = Wiring.std) (hwf : WfCfg c)
+    (acts : List Act) (s : State) (hr : run c (init c) acts = some s) (i j k : Nat)
+    (hi : s.log[i]? = some (Ev.wroteInvalid k)) (hj : s.log[j]? = some (Ev.dispatched k)) : i < j := by
+  have : Reach c s ∧ Inv9 c s := by
+    refine run_induct (c := c) (fun s => Reach c s ∧ Inv9 c s) ?_ acts _ _
+      ⟨⟨inv1_init c, inv2_init c, inv3_init c, inv4_init c, inv5_init c⟩, inv9_init c⟩ hr
+    intro s a s' hp h
+    have R := hp.1
+    exact ⟨⟨inv1_step hw hwf R.i1 h, inv2_step hw hwf R.i1 R.i2 h, inv3_step hw hwf R.i1 R.i2 R.i3 h,
+            inv4_step hw hwf R.i1 R.i4 h, inv5_step hw R.i5 h⟩, inv9_step hw hwf R hp.2 h⟩
+  exact this.2.order i j k hi hj
 
 end Sched
 
